@@ -257,6 +257,22 @@ def _tp_family(p):
             m[(k + 1) % d, k] = 1
             out.append(m)
         return out
+    if cons == "pauli-mixed-dtype":  # the Pauli channel as a user would write it: float I, X, Z and a complex Y (narrower dtype first)
+        return [0.5 * np.eye(2), 0.5 * np.array([[0.0, 1.0], [1.0, 0.0]]), 0.5 * np.array([[0, -1j], [1j, 0]]), 0.5 * np.array([[1.0, 0.0], [0.0, -1.0]])]
+    if cons == "isometries-mixed-dtype":  # integer 0/1 operator first, then a float one, then complex ones
+        out = []
+        for k in range(d):
+            m = np.zeros((d, d), dtype=(int, float, complex)[min(k, 2)])
+            m[(k + 1) % d, k] = 1
+            out.append(m)
+        # rotate the last two by a phase / a real rotation so that the wider dtypes carry information an integer array cannot hold
+        if d >= 2:
+            out[-1] = out[-1] * np.exp(0.7j) if out[-1].dtype == complex else out[-1]
+        if d >= 3:
+            c, s_ = np.cos(0.3), np.sin(0.3)
+            a, b = out[1].astype(complex), out[2]
+            out[1], out[2] = c * a + s_ * b, -s_ * a + c * b
+        return out
     if cons == "unitary":
         return [U.haar(rng, d, field)]
     raise ValueError(cons)
@@ -513,6 +529,12 @@ def cases(tier, seed):
         add("comp.spectrum", dict(d=d, r=1, cons="unitary", seed=seed), "complementary_channel/unitary", d > 1)
     add("comp.entry", dict(d=2, r=4, cons="pauli-dyadic", entries="sym", seed=seed), "complementary_channel/dyadic/symbolic-rho")
     for d in (2, 3, 4):
+        for cons in ("pauli-mixed-dtype", "isometries-mixed-dtype"):
+            if cons == "pauli-mixed-dtype" and d != 2:
+                continue
+            for cl in ("comp.entry", "comp.trace", "comp.spectrum"):
+                add(cl, dict(d=d, r=4 if cons.startswith("pauli") else d, cons=cons, entries="complex", seed=seed), "complementary_channel/mixed-dtype-family")
+    for d in (2, 3, 4):
         for cons in ("shift-dyadic", "partial-isometries"):
             add("comp.entry", dict(d=d, r=4 if cons == "shift-dyadic" else d, cons=cons, entries="sym", seed=seed), "complementary_channel/dyadic/symbolic-rho")
             add("comp.trace", dict(d=d, r=4, cons=cons, seed=seed), "complementary_channel/dyadic")
@@ -543,9 +565,16 @@ def cases(tier, seed):  # noqa: F811
 
 
 LEVEL = "other"
-ENGINES = ["E2-frame", "E3-E4-rtc"]
-LEVEL_TEXT = ("Mixed. Proved (E2): the channel operations write through no reference reachable from their arguments (e.g. the caller's list of Kraus operators), so "
-              "representations can be reused and converted in any order. The representation-independence identities themselves are complete-per-configuration symbolic "
-              "(sympy entries through the real functions) and bounded numeric run-time contract checks; nothing else is proved.")
+ENGINES = ["E1-pyvc", "E2-frame", "E3-E4-rtc"]
+LEVEL_TEXT = ("Mixed. Proved for ALL dimensions and entries (E1-array with the bilinear extension; the number of Kraus operators 1..3 and the form are enumerated): dual_channel on a Choi "
+              "matrix exchanges the tensor factors and conjugates every entry (square and rectangular spaces; channel_dim and swap by contract); on Kraus forms it replaces every operator by "
+              "its conjugate transpose and keeps the nesting; complementary_channel returns d operators with C_row[i, c] == K_i[row, c] (symbolic-length loop by its map invariant; the "
+              "completeness guard np.allclose(..) is an assumed precondition); and the lemmas <Y, Phi(X)> == <Phi*(Y), X> (Kraus pairs and Choi), dual(dual(J)) == J, and entry (i, j) of the "
+              "complementary output == Tr(K_i rho K_j^dagger). Proved (E2): no operation writes through its arguments. NOT proved, bounded only: unital <=> dual trace preserving as a "
+              "tolerance verdict, trace preservation / spectrum of the complementary channel, rejection of invalid families, floating-point rounding.")
 EXPLANATION = LEVEL_TEXT
-TECHNIQUE = "frame clauses by taint analysis of the real AST (E2) + run-time-checked contracts on symbolic (sympy) and numeric inputs over a bounded domain"
+TECHNIQUE = ("contracts on the real functions discharged from self-generated verification conditions (E1-array/bilinear: symbolic execution of the real AST, z3 / cvc5 / normal form), "
+             "frame clauses by taint analysis (E2), + run-time-checked contracts on symbolic (sympy) and numeric inputs over a bounded domain")
+from props.C04_bilinear import ASSUMED as _BIL_ASSUMED  # noqa: E402
+
+ASSUMPTIONS = list(ASSUMPTIONS) + list(_BIL_ASSUMED)
